@@ -545,6 +545,8 @@ class Interp(object):
             return ModuleVal('astropy.units')
         if modname == 'astropy' and attr == 'units':
             return ModuleVal('astropy.units')
+        if full in ('astropy.io.fits', 'astropy.table', 'astropy.io'):
+            return ModuleVal(full)
         if full in self.ext:
             return ExtFunc(full)
         if modname == 'astropy' and attr == 'log' or full == 'astropy.logger.log':
@@ -799,6 +801,8 @@ class Interp(object):
             raise Unsupported("symbolic substring test")
         if isinstance(container, DictRef):
             return self._dkey(item) in st.heap[container.addr].items
+        if isinstance(container, ObjRef) and '[]' in st.heap[container.addr].attrs:
+            return self._dkey(item) in st.heap[container.addr].attrs['[]']
         if isinstance(container, (tuple, list, ListRef)):
             items = container if isinstance(container, (tuple, list)) else st.heap[container.addr].items
             r = False
@@ -912,10 +916,35 @@ class Interp(object):
             if isinstance(key, ListRef):
                 key = npm.from_list(st, st.heap[key.addr].items)
             return npm.getitem(st, obj, key)
+        if isinstance(obj, ObjRef) and st.heap[obj.addr].cls.startswith('<') and '[]' in st.heap[obj.addr].attrs:
+            table = st.heap[obj.addr].attrs['[]']
+            k = self._dkey(key)
+            if k not in table:
+                raise Raised('KeyError', str(k))
+            return table[k]
         if isinstance(obj, Opaque):
             return Opaque('item', (obj, key))
+        from .extmodels import WhereIdx
+        if isinstance(obj, WhereIdx) and isinstance(key, int) and not isinstance(key, bool) and key == 0:
+            # np.nonzero(mask)[0][0]: the first index where the mask holds; IndexError when none does
+            shape, fn, kind = npm.info(st, obj.mask)
+            if len(shape) != 1:
+                raise Unsupported("first index of a %d-d mask" % len(shape))
+            n = shape[0]
+            first = Sc(fresh_int('first'))
+            rs = st.fork()
+            rs.assume(Forall(n, lambda j: bnot(fn((j,))), 'none'))
+            rs.status = 'raise'
+            rs.exc = ('IndexError', 'index 0 is out of bounds for axis 0 with size 0')
+            rs.path += 'E'
+            self._pending_forks.append(rs)
+            st.assume([compare('<=', 0, first), compare('<', first, n), fn((first,)),
+                       Forall(n, lambda j: implies(compare('<', j, first), bnot(fn((j,)))), 'first')])
+            return first
         if isinstance(obj, TableVal):
             return obj.getitem(self, st, key)
+        if obj is None:
+            raise Raised('TypeError', "'NoneType' object is not subscriptable")
         raise Unsupported("subscript of %r" % (obj,))
 
     # --- attributes
@@ -1012,6 +1041,8 @@ class Interp(object):
     def obj_getattr(self, ref, attr, st, fr):
         cell = st.heap[ref.addr]
         if cell.cls == '<file>':
+            return BoundBuiltin(ref, attr)
+        if cell.cls.startswith('<') and ('%' + attr) in cell.attrs:
             return BoundBuiltin(ref, attr)
         ci = self.repo.find_class(cell.cls)
         if ci is not None:
